@@ -19,6 +19,7 @@ type VerifTablesT struct {
 	LogMapKeys         []string
 	LogMountMapKeys    []string
 	VariableReference  string
+	WeightKinds        []string
 	Paragraph          string
 }
 
@@ -47,6 +48,10 @@ func VerifTables() VerifTablesT {
 	for k := range newLogMountMap {
 		t.LogMountMapKeys = append(t.LogMountMapKeys, k)
 	}
+	for k := range requirementsWeights {
+		t.WeightKinds = append(t.WeightKinds, string(k))
+	}
+	sort.Strings(t.WeightKinds)
 	sort.Strings(t.RuleMapKeys)
 	sort.Strings(t.LogMapKeys)
 	sort.Strings(t.LogMountMapKeys)
